@@ -274,7 +274,7 @@ func comparableStream(v *gval) bool {
 		return comparableStream(v.named)
 	}
 	if v.leaf != nil {
-		return v.leaf.Kind != sb.KindBytes || true
+		return v.leaf.Kind != sb.KindBytes // a []byte inside a struct key is not comparable (only a top-level bytes key is turned into an array)
 	}
 	if v.open == sb.KindObject {
 		for i := 1; i < len(v.items); i += 2 {
